@@ -188,6 +188,7 @@ func c15TickCase(c *h.Ctx, k *c15Case) {
 		if dt.ToTicks() != x {
 			c.Fail("utils.NewDateTime", "Ticks", fmt.Sprintf("ticks %d: ToTicks %d", x, dt.ToTicks()), smp)
 		}
+		c.Retain("utils.DateTime.ToBytes", dt.ToBytes(), smp)
 		if !bytes.Equal(dt.ToBytes(), k.LE) {
 			c.Fail("utils.DateTime.ToBytes", "value", fmt.Sprintf("ticks %d: spec %x code %x", x, []byte(k.LE), dt.ToBytes()), smp)
 		}
@@ -331,6 +332,7 @@ func c15TimeCase(c *h.Ctx, k *c15Case, v1txt c15Txt) {
 			for _, ver := range c15Versions {
 				for _, src := range c15Sources {
 					b := kcutils.ConvertToBinaryTime(t, src, key.KeyCredentialVersion{Value: ver})
+					c.Retain("utils.ConvertToBinaryTime", b, smp)
 					c.Exec(1)
 					if !bytes.Equal(b, k.LE) {
 						asp := "value"
